@@ -53,8 +53,8 @@ def coq_bool(b):
     return "true" if b else "false"
 
 
-def eval_route_cases(ck, name, walk, cases):
-    """cases of ONE configuration -> (mismatch ids, spec violation ids)"""
+def eval_route_cases(ck, name, walk, root, cases):
+    """cases of ONE configuration and ONE served root router -> (mismatch ids, spec violation ids)"""
     cfg = walk["config"]
     strs = {}
 
@@ -80,7 +80,7 @@ def eval_route_cases(ck, name, walk, cases):
             "     c_obs := {| o_status := st; o_handler := hr; o_backend := be; o_www := w; o_gzip := g; o_cors := c |} |}.\n")
     txt += "Definition cases : list rcase := [\n  " + ";\n  ".join(lines) + "].\n"
     txt += "Definition X := Eval vm_compute in dispatch_exact ops.\nPrint X.\n"
-    txt += "Definition M := Eval vm_compute in mismatches true login pass ops cases.\nPrint M.\n"
+    txt += "Definition M := Eval vm_compute in mismatches true login pass ops %d%%nat cases.\nPrint M.\n" % root
     txt += "Definition V := Eval vm_compute in spec_violations login pass cases.\nPrint V.\n"
     rc, out = ck.coq_eval(name, txt)
     if rc != 0:
@@ -217,8 +217,15 @@ def run(ck):
     # -------- Walk = assembly
     walks = {l["cfg"]: l for l in lines if l["kind"] == "walk"}
     for cfgname, w in walks.items():
-        e = [(r["tpl"], r.get("prefix", False) and False, sorted(r.get("methods") or [])) for r in w["expected"]]
-        g = [(r["tpl"], False, sorted(r.get("methods") or [])) for r in w["walked"]]
+        # per root router, in registration order (sub-routers are walked at their parent's position: compared as a set then)
+        e = sorted(((r["router"], i, r["tpl"], sorted(r.get("methods") or [])) for i, r in enumerate(w["expected"])))
+        g = sorted(((r["router"], i, r["tpl"], sorted(r.get("methods") or [])) for i, r in enumerate(w["walked"])))
+        e = [(a, c, d) for a, _, c, d in e]
+        g = [(a, c, d) for a, _, c, d in g]
+        if any(o["op"] == "subrouter" for o in ops):
+            key = lambda x: (x[1], x[2])
+            e, g = sorted(e, key=key), sorted(g, key=key)
+            e, g = [x[1:] for x in e], [x[1:] for x in g]
         detail = ""
         if e != g:
             only_e = [x for x in e if x not in g]
@@ -243,16 +250,17 @@ def run(ck):
     inexact = []
     shard = 9000
     for cfgname, w in walks.items():
-        cs = [c for c in cases if c["cfg"] == cfgname and not c["obs"].get("panic")]
-        for k in range(0, len(cs), shard):
-            m, v, exact, out = eval_route_cases(ck, "C20_routes_%s_%d" % (re.sub(r"\W", "_", cfgname), k // shard), w, cs[k:k + shard])
-            if m is None or v is None:
-                ck.obligation("route cases evaluated inside Coq [%s]" % cfgname, False, out[-1500:])
-                return
-            if not exact:
-                inexact.append(cfgname)
-            mism += m
-            viol += v
+        for root in sorted(set(c.get("root", 0) for c in cases if c["cfg"] == cfgname)):
+            cs = [c for c in cases if c["cfg"] == cfgname and c.get("root", 0) == root and not c["obs"].get("panic")]
+            for k in range(0, len(cs), shard):
+                m, v, exact, out = eval_route_cases(ck, "C20_routes_%s_r%d_%d" % (re.sub(r"\W", "_", cfgname), root, k // shard), w, root, cs[k:k + shard])
+                if m is None or v is None:
+                    ck.obligation("route cases evaluated inside Coq [%s]" % cfgname, False, out[-1500:])
+                    return
+                if not exact:
+                    inexact.append(cfgname)
+                mism += m
+                viol += v
     ck.obligation("spec oracle spec_ok accepts every observation of the real router (%d requests)" % len(cases), not viol and not panics,
                   "violating case ids: %s" % viol[:10])
     if viol:
